@@ -12,7 +12,7 @@ from vlib import Infra, Violation, log
 MANIFEST = {
     "engine": "tlc+go-harness", "design_ref": "DESIGN.md section 4 (C19)",
     "technique": "TLA+ replica/importer/restart model (Replica.tla) model-checked with two non-vacuity witnesses (hidden nondeterministic bit; stale in-memory memo trusted by a warm node); per-block digests of N OS processes (replicas, restarters, proposers) + 4 importers trace-validated by TLC; differing exported modules classified field by field",
-    "text": "A seeded workload (pure data: bank, lockup, gamm balancer + stableswap, poolmanager routes, concentrated liquidity, tokenfactory, incentives gauges, staking delegation, a governance parameter change voted through, x/smart-account authenticators added and removed (newest id out of use at four of five export points); block times crossing hour/day epochs) is executed from one genesis file by several OS processes (fresh Go map seeds, GOMAXPROCS 1..16, GOGC varied). Every operation is a signed sdk transaction (secp256k1 keys, account numbers and sequences read from the node's own committed state, gas limits from ample to exhausted inside the ante handler, fees exactly at the consensus minimum / generous / zero / one unit short / in the whitelisted fee tokens uion and atom / in a non-fee token / beyond the payer's balance, wrong sequences, multi-message transactions some of whose LAST message fails) delivered through FinalizeBlock(Txs) + Commit: ante handlers (x/txfees, x/smart-account circuit breaker, signatures, sequences), messages in ExecModeFinalize and post handlers (x/protorev, x/smart-account) all run. Under-funded accounts and failing trailing messages produce pool creations that fail AFTER their hooks ran; the pool id is then given to a pool of another type and used. Roles: plain replicas; restarters that discard their application object before 3 blocks and re-open a new one over the same database (cold in-memory caches); proposers that push every transaction through CheckTx and every block through PrepareProposal/ProcessProposal first. TLC requires the same signed bytes, bit-identical app hash, per-transaction result digests (code, codespace, gas wanted, gas used, data, events) and block events for every block across all of them, identical module-by-module exports at the export heights and at the end, and - for four importers started by InitChain from the exported state (their transactions signed with the sequences of the imported state) - the same transaction results and events for every later block, identical app hashes among the importers, and module state equal to the exporter's right after import and at the end (field-level differences are classified; re-anchored heights are listed findings). A scripted probe history (a concentrated pool becomes protorev's highest-liquidity pool of its pair, export, then a swap protorev back-runs through it) with two replicas and two importers is validated the same way.",
+    "text": "A seeded workload (pure data: bank, lockup, gamm balancer + stableswap, poolmanager routes, concentrated liquidity, tokenfactory, incentives gauges, staking delegation, a governance parameter change voted through, x/smart-account authenticators added and removed (newest id out of use at four of five export points), a token-factory fragment (create, mint, force transfers between ordinary accounts, administration handed over); block times crossing hour/day epochs) is executed from one genesis file by several OS processes (fresh Go map seeds, GOMAXPROCS 1..16, GOGC varied). Every operation is a signed sdk transaction (secp256k1 keys, account numbers and sequences read from the node's own committed state, gas limits from ample to exhausted inside the ante handler, fees exactly at the consensus minimum / generous / zero / one unit short / in the whitelisted fee tokens uion and atom / in a non-fee token / beyond the payer's balance, wrong sequences, multi-message transactions some of whose LAST message fails) delivered through FinalizeBlock(Txs) + Commit: ante handlers (x/txfees, x/smart-account circuit breaker, signatures, sequences), messages in ExecModeFinalize and post handlers (x/protorev, x/smart-account) all run. Under-funded accounts and failing trailing messages produce pool creations that fail AFTER their hooks ran; the pool id is then given to a pool of another type and used. Roles: plain replicas; restarters that discard their application object before 3 blocks and re-open a new one over the same database (cold in-memory caches); proposers that push every transaction through CheckTx and every block through PrepareProposal/ProcessProposal first. TLC requires the same signed bytes, bit-identical app hash, per-transaction result digests (code, codespace, gas wanted, gas used, data, events) and block events for every block across all of them, identical module-by-module exports at the export heights and at the end, and - for four importers started by InitChain from the exported state (their transactions signed with the sequences of the imported state) - the same transaction results and events for every later block, identical app hashes among the importers, and module state equal to the exporter's right after import and at the end (field-level differences are classified; re-anchored heights are listed findings). A scripted probe history (a concentrated pool becomes protorev's highest-liquidity pool of its pair, export, then a swap protorev back-runs through it) with two replicas and two importers is validated the same way.",
     "note": "Schedules are sampled (N processes), not enumerated: an iteration-order bug that needs more than N runs to show can be missed. Result logs (error texts) are not compared: only code, codespace, gas, data and events are results. The importer runs with crisis genesis invariants skipped (crisis precedes the osmosis modules in the InitGenesis order, so they cannot pass on any non-trivial genesis). ibc's localhost client height is third-party state that tracks the current height. The two fee-token pools and the permissionless-concentrated-pool switch are written into the genesis-time state by keeper calls, identically on every replica (importers receive them through the export). Listed deviations are validated under their own rule (TraceReplicaKnown.cfg) only after the strict rule of the property (TraceReplica.cfg) rejected a transaction result, and everything they do not explain stays a violation: gas used of a transaction naming the pool id of a reverted creation (warm vs cold node), gas used on an importer vs the exporter, and an importer whose protorev back-runs differ (its import point is then abandoned for the next one). A restart re-opens the application inside the same OS process: package-level Go state survives it (importers, separate processes, are cold in that respect too).",
 }
 BUILD = [("./app/replica/", "replica")]
